@@ -4,6 +4,7 @@ package dirsrc
 
 import (
 	"bytes"
+	"compress/gzip"
 	"fmt"
 	"os"
 	"path/filepath"
@@ -33,7 +34,8 @@ type Case struct {
 }
 
 // names[i-1] is the file name of name index i; byte-wise order = index order.
-var names = []string{"10", "9", "B.pb", "_x", "a", "a.b", "a0", "b"}
+// (the fourth name is not valid UTF-8: file names are byte strings)
+var names = []string{"10", "9", "B.pb", "_\xff", "a", "a.b", "a0", "b"}
 
 // Name indexes beyond the pool stand for synthetic names that sort after the pool, in index order.
 func nameOf(i int) string {
@@ -212,6 +214,15 @@ func materialise(dir string, entries []Entry, onlyGood bool) (vanish []string, e
 			err = os.WriteFile(p, bad, 0o644)
 		case "dangling":
 			err = os.Symlink(filepath.Join(dir, "no-such-target"), p)
+		case "gzip":
+			var zb bytes.Buffer
+			zw := gzip.NewWriter(&zb)
+			zw.Write(good)
+			zw.Close()
+			if proto.Unmarshal(zb.Bytes(), &gtfsrt.FeedMessage{}) == nil {
+				return nil, fmt.Errorf("harness self-check: gzip stream parses as a message")
+			}
+			err = os.WriteFile(p, zb.Bytes(), 0o644)
 		default:
 			err = fmt.Errorf("unknown kind %q", e.Kind)
 		}
